@@ -118,6 +118,11 @@ func (p *Proc) Hang() {
 }
 
 // Note stores a JSON value in the process record.
+// BuildVersion: the thriftgo version this simulated executable reports in its build info ("" = none).
+func (p *Proc) BuildVersion() string {
+	return p.w.Spec.BuildInfo[p.rec.Path]
+}
+
 func (p *Proc) Note(k string, v interface{}) {
 	b, err := json.Marshal(v)
 	if err != nil {
